@@ -248,6 +248,36 @@ RefWrite(k, path, i, wk, v, j) ==
     /\ Mut("RefWrite", k, [path |-> path, i |-> i, wk |-> wk, v |-> v, j |-> j],
            SetBit(obj[k], i, Written(obj[k][i + 1], wk, v, obj[k][j + 1])), Void)
 
+(* Two element references at once: r1 designates bit i of object k (obtained through path p1), r2 designates bit j of    *)
+(* object Src(k, sf) (through path p2).  The two referents may be the SAME bit, two bits of the same block, of different  *)
+(* blocks or of different objects; every action that takes two positions is defined for all of these.                    *)
+(*   pk: "swap"     swap(r1, r2) (ADL: exchanges the referent VALUES)       "iterswap" std::iter_swap(it1, it2)            *)
+(*       "assign"   r1 = r2          "and" r1 &= r2          "or" r1 |= r2          "xor" r1 ^= r2                         *)
+(*   vc: value category of the two proxies: "tmp" (the prvalues returned by the accessor / *it), "named" (two lvalues      *)
+(*       auto r1 = ..., r2 = ...), "copy" (copies of the two named proxies: a copy designates the same referent)          *)
+(* swap / iter_swap are declared for two references of the same bitset type (both owning or both views).                  *)
+PairKinds == {"swap", "iterswap", "assign", "and", "or", "xor"}
+PairCats  == {"tmp", "named", "copy"}
+PairSwaps == {"swap", "iterswap"}
+RefPair(k, sf, p1, i, p2, j, pk, vc) ==
+    LET o  == Src(k, sf)
+        x  == obj[k][i + 1]
+        y  == obj[o][j + 1]
+        nx == CASE pk \in PairSwaps \cup {"assign"} -> y
+                [] pk = "and" -> BAnd(x, y)
+                [] pk = "or"  -> BOr(x, y)
+                [] pk = "xor" -> BXor(x, y)
+        s1 == [obj EXCEPT ![k] = SetBit(obj[k], i, nx)]
+    IN
+    /\ sf \in {0, 1} /\ p1 \in WritePaths /\ p2 \in WritePaths /\ pk \in PairKinds /\ vc \in PairCats
+    /\ PathIndexOK(k, p1, i) /\ PathIndexOK(o, p2, j)
+    /\ pk = "iterswap" => (p1 \in {"iter", "riter"} /\ p2 \in {"iter", "riter"} /\ vc = "tmp")
+    /\ pk \in PairSwaps => kind[k] = kind[o]
+    /\ pre'  = [obj |-> obj, kind |-> kind]
+    /\ obj'  = IF pk \in PairSwaps THEN [s1 EXCEPT ![o] = SetBit(s1[o], j, x)] ELSE s1
+    /\ UNCHANGED <<kind, w>>
+    /\ last' = [op |-> "RefPair", k |-> k, a |-> [self |-> sf, p1 |-> p1, i |-> i, p2 |-> p2, j |-> j, pk |-> pk, vc |-> vc], res |-> Void]
+
 (* std::fill(begin() + i, begin() + j, v): a run of iterator writes *)
 Fill2(k, i, j, v) ==
     /\ i <= j /\ j <= Len(obj[k])
@@ -347,6 +377,18 @@ NextT(k) ==
            /\ (wk \in {"flip", "aref"} => v = 0)
            /\ (wk # "aref" => j = 0)
            /\ RefWrite(k, path, i, wk, v, j)
+    \/ (C("refpair") \/ C("refpairall")) /\ \E sf \in {0, 1}, i \in Idx(k), p1 \in WritePaths, p2 \in WritePaths, pk \in PairKinds, vc \in PairCats :
+           /\ C("refpairall") \/ <<p1, p2, vc>> \in {<<"index", "index", "tmp">>, <<"index", "at", "named">>, <<"front", "back", "copy">>,
+                                                     <<"back", "index", "named">>, <<"iter", "riter", "tmp">>}
+           /\ \E j \in Idx(Src(k, sf)) : RefPair(k, sf, p1, i, p2, j, pk, vc)
+    \/ C("refpairfew") /\ \E i \in {0, 1, w - 1, w, Len(obj[k]) - 1} \cap Idx(k), p1 \in {"index", "at", "iter", "riter"}, pk \in PairKinds, vc \in PairCats :
+           \E j \in {i, 0, w, Len(obj[k]) - 1} \cap Idx(k), p2 \in {p1, "index"} :
+               /\ (~(p1 = "index" /\ p2 = "index") => vc = "tmp")
+               /\ RefPair(k, 1, p1, i, p2, j, pk, vc)
+    \/ C("refpairbin") /\ \E i \in {0, Len(obj[k]) - 1} \cap Idx(k), p1 \in {"index", "iter"}, pk \in PairKinds, vc \in PairCats :
+           \E j \in {i, Len(obj[Other(k)]) - 1} \cap Idx(Other(k)) :
+               /\ (p1 # "index" => vc = "tmp")
+               /\ RefPair(k, 0, p1, i, p1, j, pk, vc)
     \/ C("writefew") /\ \E i \in Idx(k), path \in WritePaths, wk \in WriteKinds, v \in Bit, j \in {0, Len(obj[k]) - 1} :
            /\ (wk \in {"flip", "aref"} => v = 0)
            /\ (wk # "aref" => j = 0)
@@ -417,6 +459,16 @@ FailedChangesNothing == [][last'.res.exc # "none" => obj' = obj /\ kind' = kind]
 (* a move leaves the target with exactly what the source held; a swap exchanges, twice is the identity *)
 MoveLaw == [][last'.op \in {"CtorMove", "MoveAssign"} => obj'[last'.k] = obj[Other(last'.k)]]_vars
 SwapLaw == [][last'.op = "Swap" => (obj'[1] = obj[2] /\ obj'[2] = obj[1]) \/ (last'.a.self = 1 /\ obj' = obj)]_vars
+(* two references: sizes and kinds never change, nothing but the two referents changes; swap exchanges (twice = identity, *)
+(* same bit = no change); r ^= r clears the bit, r = r / r &= r / r |= r change nothing; popcount is kept by swap          *)
+RefPairLaw == [][last'.op = "RefPair" =>
+    LET a == last'.a  k == last'.k  o == Src(k, a.self) IN
+    /\ \A q \in {1, 2} : Len(obj'[q]) = Len(obj[q])
+    /\ \A q \in {1, 2} : \A t \in 1..Len(obj[q]) : (~(q = k /\ t = a.i + 1) /\ ~(q = o /\ t = a.j + 1)) => obj'[q][t] = obj[q][t]
+    /\ (a.pk \in PairSwaps => /\ obj'[k][a.i + 1] = obj[o][a.j + 1] /\ obj'[o][a.j + 1] = obj[k][a.i + 1]
+                              /\ Count(obj'[1]) + Count(obj'[2]) = Count(obj[1]) + Count(obj[2]))
+    /\ ((o = k /\ a.i = a.j) => IF a.pk = "xor" THEN obj'[k][a.i + 1] = 0 ELSE obj' = obj)
+    /\ (a.pk = "assign" => obj'[k][a.i + 1] = obj[o][a.j + 1])]_vars
 (* self-application: a &= a, a |= a, a = a change nothing, a ^= a clears *)
 SelfLaw == [][(last'.op \in {"AndEq", "OrEq", "CopyAssign"} /\ last'.a.self = 1 => obj' = obj)
               /\ (last'.op = "XorEq" /\ last'.a.self = 1 => obj'[last'.k] = Fill(Len(obj[last'.k]), 0))]_vars
